@@ -178,7 +178,9 @@ package common
 //@   -- or it is the amount of the first non-ordinary input (mint / deposit), the inputs before it being ignored
 //@   ensures [c01-sum] err == nil && OrdInputs(&tx.Transaction) ==> val(result1) == SumIn(store, &tx.Transaction, len(tx.Inputs))
 //@   ensures [c01-asset] err == nil && OrdInputs(&tx.Transaction) ==> forall i int :: 0 <= i && i < len(tx.Inputs) ==> InputAssetIs(store, tx.Inputs[i], tx.Asset)
+//@   ensures [c01-genesis] err == nil && NoSpecialInputs(&tx.Transaction) ==> OrdInputs(&tx.Transaction) -- a non-empty Genesis is rejected
 //@   ensures [c01-special] err == nil ==> forall k int :: 0 <= k && k < len(tx.Inputs) && !OrdInput(tx.Inputs[k]) && (forall j int :: 0 <= j && j < k ==> OrdInput(tx.Inputs[j])) ==>
+//@       len(tx.Inputs[k].Genesis) == 0 &&
 //@       (tx.Inputs[k].Mint != nil ==> val(result1) == val(tx.Inputs[k].Mint.Amount)) &&
 //@       (tx.Inputs[k].Mint == nil ==> tx.Inputs[k].Deposit != nil && val(result1) == val(tx.Inputs[k].Deposit.Amount))
 //@   loop 0 invariant [c01-ord] forall j int :: 0 <= j && j <= rangeindex ==> OrdInput(tx.Inputs[j])
@@ -219,14 +221,16 @@ package common
 //@   -- C01 (the property statement, clause by clause): an accepted transaction has inputs and outputs; either all inputs are ordinary
 //@   -- or the single input is a mint / deposit; every output amount is positive; the outputs add up to exactly the total input amount,
 //@   -- which is positive; every ordinary input is an output that exists in the ledger and has the transaction's asset.
-//@   ensures [c01-nonempty] err == nil ==> len(ver.Inputs) >= 1 && len(ver.Outputs) >= 1
-//@   ensures [c01-shape] err == nil ==> OrdInputs(&ver.Transaction) ||
-//@       (len(ver.Inputs) == 1 && len(ver.Inputs[0].Genesis) == 0 && (ver.Inputs[0].Mint != nil || ver.Inputs[0].Deposit != nil))
-//@   ensures [c01-positive] err == nil ==> forall a int :: 0 <= a && a < len(ver.Outputs) ==> val(ver.Outputs[a].Amount) > 0
-//@   ensures [c01-conserved] err == nil ==> SumOut(&ver.Transaction, len(ver.Outputs)) == TxInAmount(store, &ver.Transaction)
-//@   ensures [c01-input-positive] err == nil ==> TxInAmount(store, &ver.Transaction) > 0
-//@   ensures [c01-asset] err == nil ==> forall k int :: 0 <= k && k < len(ver.Inputs) && OrdInput(ver.Inputs[k]) ==>
-//@       InLedger(store, ver.Inputs[k]) && InputAssetIs(store, ver.Inputs[k], ver.Asset)
+//@   -- The clauses describe the transaction AS PASSED IN (old state): Validate writes only the caches ver.hash / ver.pmbytes / ver.validatedSize
+//@   -- (and hash caches of store-returned transactions in validateNodeRemove, whose frame cannot be named), so old == new for every field used.
+//@   ensures [c01-nonempty] err == nil ==> old(len(ver.Inputs) >= 1 && len(ver.Outputs) >= 1)
+//@   ensures [c01-shape] err == nil ==> old(forall j int :: 0 <= j && j < len(ver.Inputs) ==> OrdInput(ver.Inputs[j]) ||
+//@       (len(ver.Inputs) == 1 && len(ver.Inputs[0].Genesis) == 0 && (ver.Inputs[0].Mint != nil || ver.Inputs[0].Deposit != nil)))
+//@   ensures [c01-positive] err == nil ==> old(forall a int :: 0 <= a && a < len(ver.Outputs) ==> val(ver.Outputs[a].Amount) > 0)
+//@   ensures [c01-conserved] err == nil ==> old(SumOut(&ver.Transaction, len(ver.Outputs)) == TxInAmount(store, &ver.Transaction))
+//@   ensures [c01-input-positive] err == nil ==> old(TxInAmount(store, &ver.Transaction) > 0)
+//@   ensures [c01-asset] err == nil ==> old(forall k int :: 0 <= k && k < len(ver.Inputs) && OrdInput(ver.Inputs[k]) ==>
+//@       InLedger(store, ver.Inputs[k]) && InputAssetIs(store, ver.Inputs[k], ver.Asset))
 
 // ───────────── type-specific validators ─────────────
 
